@@ -83,6 +83,62 @@ def rows_from_archive(text, w):
     return rows
 
 
+def strict_archive_independence(ctx):
+    """`query --strict -f archive` (the one format that carries the classifier's warnings): every genome's complete item alone and inside
+    batches that hold genomes drawing warnings (matches in two trees; primary match not the closest)"""
+    tmp = tlc.mktmp('c08s-')
+    try:
+        w = W.default_world(ctx.seed + 2)
+        dbdir = os.path.join(tmp, 'db')
+        W.build_db(dbdir, w)
+        g = w['genomes']
+        pool = W.query_pool(w, seed=ctx.seed + 9)[:5]
+        pool.append(dict(name='q_two_roots', contigs=g[0]['contigs'] + g[6]['contigs']))
+        pool.append(dict(name='q_two_species', contigs=g[0]['contigs'] + g[4]['contigs']))
+        paths = [W.write_fasta(os.path.join(tmp, 'g', q['name'] + '.fasta'), q['contigs']) for q in pool]
+        n = len(pool)
+        batches = [[i] for i in range(n)] + [list(range(n)), list(range(n))[::-1], [5, 0], [0, 5], [6, 1, 5], [1, 6], [4, 5, 6, 0]]
+        jobs = [(['-d', dbdir, 'query', '--strict', '-f', 'archive', '--no-progress', '-c', str(1 + bi % 3), '-o', os.path.join(tmp, f'o{bi}.json')] + [paths[i] for i in b], dict(cwd=tmp))
+                for bi, b in enumerate(batches)]
+        results = cli.run_many(jobs)
+        items = []
+        for bi, (b, (rc, so, se)) in enumerate(zip(batches, results)):
+            try:
+                data = json.load(open(os.path.join(tmp, f'o{bi}.json'))) if rc == 0 else None
+                items.append([json.dumps(it, sort_keys=True) for it in data['items']] if data and len(data['items']) == len(b) else None)
+            except Exception:
+                items.append(None)
+        recs, warned = [], 0
+        for bi, b in enumerate(batches[n:], start=n):
+            for pos, gi in enumerate(b):
+                ok = items[gi] is not None and items[bi] is not None
+                recs.append(dict(genome=pool[gi]['name'], batch=[pool[j]['name'] for j in b], pos=pos, ok=ok,
+                                 alone=cps(items[gi][0]) if ok else [], inbatch=cps(items[bi][pos]) if ok else []))
+        warned = sum(1 for i in range(n) if items[i] and json.loads(items[i][0])['classifier_result']['warnings'])
+        if warned == 0:
+            raise tlc.MachineryError('strict-archive-independence: no genome of the pool draws a classifier warning (family would be vacuous)')
+        nj, bad = tlc.judge('Judge_Indep', recs, shards=1)
+        for i, why in bad:
+            r = recs[i]
+            ctx.report('strict-archive-independence', dict(genome=r['genome'], batch=r['batch'], pos=r['pos']), dict(ok=r['ok'], alone=''.join(map(chr, r['alone']))[-400:], inbatch=''.join(map(chr, r['inbatch']))[-400:]), why,
+                       key=f'strict-archive:{r["genome"]}:{why[0] if why else ""}', describe=f'{r["genome"]} in batch {r["batch"]} at {r["pos"]}')
+        ctx.traces += nj
+        ctx.evaluations += nj
+        for r in recs:
+            ctx.nontrivial_keys.add(('strict-archive', r['genome'], tuple(r['batch'])))
+        import copy
+        c1 = copy.deepcopy(recs[0]); c1['inbatch'] = c1['inbatch'][:-2] + [48] + c1['inbatch'][-1:]
+        _, b2 = tlc.judge('Judge_Indep', [c1], shards=1)
+        if len(b2) != 1:
+            raise tlc.MachineryError('self-test: Judge_Indep accepted a corrupted record')
+        ctx.selftests.append(dict(family='strict-archive-independence', corrupted=1, rejected=1))
+        ctx.families.append(dict(name='strict-archive-independence', records=nj, rejected=len(bad), judge='Judge_Indep', genomes_with_warnings=warned))
+        ctx.rule_parts.append(f'[strict-archive-independence] {n} genomes ({warned} of them drawing classifier warnings in strict mode) queried alone and in {len(batches) - n} batches with '
+                              '`query --strict -f archive`: the complete item (warnings, error, matches) of a genome is the same alone and at every position of every batch')
+    finally:
+        shutil.rmtree(tmp, ignore_errors=True)
+
+
 def run(ctx):
     ctx.mc('System', 'MC_System.cfg', require_actions=['SigCreate', 'QueryFiles', 'QuerySigsAny', 'DistSigsAny'], workers=8,
            overrides=dict(MaxCmds=4 if ctx.tier == 'quick' else 5),
@@ -96,6 +152,7 @@ def run(ctx):
                 '"." and doubled separators are neutral; links are transparent; cycles fail')
     from .. import paths
     core.run_family(ctx, paths.PathResolution())
+    strict_archive_independence(ctx)
     rng = random.Random(ctx.seed)
     tmp = tlc.mktmp('c08-')
     try:
